@@ -224,6 +224,8 @@ func c14(c *core.Ctx) {
 		c.Check(found, "C14.R1", "Hooks|"+hf.Name(), p.Pos(hf.Pos()), "hook kind has a wrapper kind", "hook kind "+hf.Name()+" has no wrapper kind in HookWrapper")
 	}
 
+	// CONNECT verdicts (shared with C19.R1): a rejected CONNECT registers nothing and gets no success CONNACK
+	connectVerdicts(c, "C14.R4")
 	c14Wrappers(c, hw)
 	c14Verdicts(c)
 	c14Inventory(c, hooks)
